@@ -281,6 +281,18 @@ def runOp (op : String) (args : List String) : String :=
   | "sig0.class", [b] => match unhex b with
     | some buf => if buf.length < 12 then "short" else (match sigWalk buf with | .panic => "panic" | _ => "nopanic")
     | none => "bad-op"
+  | "deframe", chunks =>
+    let cs := chunks.filterMap unhex
+    let (ms, e) := readMsgs (cs.flatten.length + 1) cs
+    " ".intercalate ((ms.map hex) ++ [match e with | .eof => "eof" | .unexpected => "unexpected"])
+  | "xchg.dgram", qid :: replies =>
+    let rs := replies.map fun r => if r == "E" then Reply.err else Reply.msg (r.toNat?.getD 0)
+    (match exchangeDatagram (qid.toNat?.getD 0) rs with
+      | some (Reply.msg id) => s!"ok {id}" | some Reply.err => "err" | none => "err")
+  | "xchg.stream", qid :: replies =>
+    let rs := replies.map fun r => if r == "E" then Reply.err else Reply.msg (r.toNat?.getD 0)
+    (match exchangeStream (qid.toNat?.getD 0) rs with
+      | .ok id => s!"ok {id}" | .errId => "errId" | .err => "err")
   | "lab.count", [t] => match unhex t with
     | some s => toString (countLabel s) | _ => "bad-op"
   | "lab.split", [t] => match unhex t with
